@@ -230,6 +230,9 @@ func genC04(t *rapid.T) c04Case {
 			}
 			op.SetSize = rapid.IntRange(0, 9).Draw(t, "setsize") < 3
 			op.Size = uint64(rapid.IntRange(0, 50).Draw(t, "size"))
+			if op.SetSize && rapid.IntRange(0, 4).Draw(t, "hugesize") == 0 {
+				op.Size = pick(t, "hsize", uint64(1)<<31, 1<<32-1, 1<<32, 1<<32+7, 1<<40+3, 1<<62)
+			}
 			op.Times = rapid.IntRange(0, 2).Draw(t, "times")
 			if rapid.IntRange(0, 3).Draw(t, "ondir") == 0 {
 				op.Name = ""
@@ -245,6 +248,9 @@ func genC04(t *rapid.T) c04Case {
 			op.Mode = rapid.SampledFrom([]uint32{0600, 0644, 0, 0755}).Draw(t, "cmode")
 		case "write":
 			op.Off = uint64(rapid.IntRange(0, 30).Draw(t, "off"))
+			if rapid.IntRange(0, 9).Draw(t, "hugeoff") == 0 {
+				op.Off = pick(t, "hoff", uint64(1)<<32-3, 1<<32+1, 1<<41)
+			}
 			op.Len = rapid.IntRange(0, 20).Draw(t, "len")
 		case "read":
 			op.Off = uint64(rapid.IntRange(0, 30).Draw(t, "off"))
